@@ -626,6 +626,47 @@ func V1FormRevise(twice bool) Action {
 	}}
 }
 
+// V1FormProve: a v1 contract whose window opens at this very block is formed (optionally revised) and proven by a later
+// transaction of the same block: created and resolved in one block (its diff is Created AND Resolved; a revert must
+// not bring it back).
+func V1FormProve(revise bool) Action {
+	name := "v1form+prove-in-block"
+	if revise {
+		name = "v1form+revise+prove-in-block"
+	}
+	return Action{name, func(bc *BlockCtx) bool {
+		save, nonce := bc.snapshot()
+		n := len(bc.V1)
+		if bc.H < 1 || !v1form(bc, bc.H, bc.H+2, 100, 5) || len(bc.V1) != n+1 {
+			*bc = save
+			bc.W.Nonce = nonce
+			return false
+		}
+		w := bc.W
+		t1 := bc.V1[n]
+		fcid := t1.FileContractID(0)
+		cur := t1.FileContracts[0]
+		if revise {
+			rev := cur
+			rev.ValidProofOutputs = append([]types.SiacoinOutput(nil), cur.ValidProofOutputs...)
+			rev.MissedProofOutputs = append([]types.SiacoinOutput(nil), cur.MissedProofOutputs...)
+			rev.RevisionNumber++
+			one := types.Siacoins(1)
+			rev.ValidProofOutputs[0].Value = rev.ValidProofOutputs[0].Value.Sub(one)
+			rev.ValidProofOutputs[1].Value = rev.ValidProofOutputs[1].Value.Add(one)
+			rev.MissedProofOutputs[0].Value = rev.MissedProofOutputs[0].Value.Sub(one)
+			rev.MissedProofOutputs[1].Value = rev.MissedProofOutputs[1].Value.Add(one)
+			txn := types.Transaction{FileContractRevisions: []types.FileContractRevision{{ParentID: fcid, UnlockConditions: w.Keys.UCForHash(cur.UnlockHash), FileContract: rev}}}
+			w.SignV1Whole(&txn)
+			bc.V1 = append(bc.V1, txn)
+			cur = rev
+		}
+		bc.V1 = append(bc.V1, w.V1ProofTxn(fcid, cur, w.CS.Index.ID))
+		bc.Names = append(save.Names, name)
+		return true
+	}}
+}
+
 // V1ProofFee is V1Proof(false) whose transaction also spends a siacoin output entirely as miner fees (a storage proof
 // transaction may carry no outputs, but it may carry inputs and fees).
 func V1ProofFee() Action {
